@@ -241,40 +241,40 @@ func c20PrevKind(p c20Object) string {
 	return p.Kind()
 }
 
-func (o *c20K1) Category() c20Category   { return c20CatBiz }
-func (o *c20K1) Kind() string            { return "C20K1" }
+func (o *c20K1) Category() c20Category    { return c20CatBiz }
+func (o *c20K1) Kind() string             { return "C20K1" }
 func (o *c20K1) DefaultSpec() interface{} { return &c20ObjSpec{} }
-func (o *c20K1) Status() *c20Status      { return &c20Status{} }
-func (o *c20K1) Init(s *c20Spec)         { c20Create(o, &o.c20Base, o.Kind(), s, nil, "") }
+func (o *c20K1) Status() *c20Status       { return &c20Status{} }
+func (o *c20K1) Init(s *c20Spec)          { c20Create(o, &o.c20Base, o.Kind(), s, nil, "") }
 func (o *c20K1) Inherit(s *c20Spec, p c20Object) {
 	c20Create(o, &o.c20Base, o.Kind(), s, p, c20PrevKind(p))
 }
 func (o *c20K1) Close() { c20Close(o, &o.c20Base, o.Kind()) }
 
-func (o *c20K2) Category() c20Category   { return c20CatBiz }
-func (o *c20K2) Kind() string            { return "C20K2" }
+func (o *c20K2) Category() c20Category    { return c20CatBiz }
+func (o *c20K2) Kind() string             { return "C20K2" }
 func (o *c20K2) DefaultSpec() interface{} { return &c20ObjSpec{} }
-func (o *c20K2) Status() *c20Status      { return &c20Status{} }
-func (o *c20K2) Init(s *c20Spec)         { c20Create(o, &o.c20Base, o.Kind(), s, nil, "") }
+func (o *c20K2) Status() *c20Status       { return &c20Status{} }
+func (o *c20K2) Init(s *c20Spec)          { c20Create(o, &o.c20Base, o.Kind(), s, nil, "") }
 func (o *c20K2) Inherit(s *c20Spec, p c20Object) {
 	c20Create(o, &o.c20Base, o.Kind(), s, p, c20PrevKind(p))
 }
 func (o *c20K2) Close() { c20Close(o, &o.c20Base, o.Kind()) }
 
-func (o *c20SB) Category() c20Category   { return c20CatBiz }
-func (o *c20SB) Kind() string            { return "C20SB" }
+func (o *c20SB) Category() c20Category    { return c20CatBiz }
+func (o *c20SB) Kind() string             { return "C20SB" }
 func (o *c20SB) DefaultSpec() interface{} { return &c20ObjSpec{} }
-func (o *c20SB) Status() *c20Status      { return &c20Status{} }
-func (o *c20SB) Init(s *c20Spec)         { c20Create(o, &o.c20Base, o.Kind(), s, nil, "") }
+func (o *c20SB) Status() *c20Status       { return &c20Status{} }
+func (o *c20SB) Init(s *c20Spec)          { c20Create(o, &o.c20Base, o.Kind(), s, nil, "") }
 func (o *c20SB) Inherit(s *c20Spec, p c20Object) {
 	c20Create(o, &o.c20Base, o.Kind(), s, p, c20PrevKind(p))
 }
 func (o *c20SB) Close() { c20Close(o, &o.c20Base, o.Kind()) }
 
-func (o *c20G1) Category() c20Category   { return c20CatGate }
-func (o *c20G1) Kind() string            { return "C20G1" }
+func (o *c20G1) Category() c20Category    { return c20CatGate }
+func (o *c20G1) Kind() string             { return "C20G1" }
 func (o *c20G1) DefaultSpec() interface{} { return &c20ObjSpec{} }
-func (o *c20G1) Status() *c20Status      { return &c20Status{} }
+func (o *c20G1) Status() *c20Status       { return &c20Status{} }
 func (o *c20G1) Init(s *c20Spec, _ context.MuxMapper) {
 	c20Create(o, &o.c20Base, o.Kind(), s, nil, "")
 }
@@ -283,10 +283,10 @@ func (o *c20G1) Inherit(s *c20Spec, p c20Object, _ context.MuxMapper) {
 }
 func (o *c20G1) Close() { c20Close(o, &o.c20Base, o.Kind()) }
 
-func (o *c20P1) Category() c20Category   { return c20CatPipe }
-func (o *c20P1) Kind() string            { return "C20P1" }
+func (o *c20P1) Category() c20Category    { return c20CatPipe }
+func (o *c20P1) Kind() string             { return "C20P1" }
 func (o *c20P1) DefaultSpec() interface{} { return &c20ObjSpec{} }
-func (o *c20P1) Status() *c20Status      { return &c20Status{} }
+func (o *c20P1) Status() *c20Status       { return &c20Status{} }
 func (o *c20P1) Init(s *c20Spec, _ context.MuxMapper) {
 	c20Create(o, &o.c20Base, o.Kind(), s, nil, "")
 }
@@ -295,10 +295,10 @@ func (o *c20P1) Inherit(s *c20Spec, p c20Object, _ context.MuxMapper) {
 }
 func (o *c20P1) Close() { c20Close(o, &o.c20Base, o.Kind()) }
 
-func (o *c20SG) Category() c20Category   { return c20CatGate }
-func (o *c20SG) Kind() string            { return "C20SG" }
+func (o *c20SG) Category() c20Category    { return c20CatGate }
+func (o *c20SG) Kind() string             { return "C20SG" }
 func (o *c20SG) DefaultSpec() interface{} { return &c20ObjSpec{} }
-func (o *c20SG) Status() *c20Status      { return &c20Status{} }
+func (o *c20SG) Status() *c20Status       { return &c20Status{} }
 func (o *c20SG) Init(s *c20Spec, _ context.MuxMapper) {
 	c20Create(o, &o.c20Base, o.Kind(), s, nil, "")
 }
